@@ -89,7 +89,7 @@ def probe(rec: core.Recorder, shared: Shared, cid, expected: bool, rng: random.R
     """Compare the library's view of the switch with the context's own shadow value."""
     from physt.config import config
 
-    kind = rng.choice(["read", "read", "add_array", "mul_array", "mul_neg", "div_neg", "idiv_neg", "set_negative", "isub_array", "read", "add_negative", "add_negative_rebinned", "scale_negative_operand", "radd_zero_array", "sub_more_missed"])
+    kind = rng.choice(["read", "read", "add_array", "mul_array", "mul_neg", "div_neg", "idiv_neg", "set_negative", "isub_array", "read", "add_negative", "add_negative_rebinned", "scale_negative_operand", "negative_missed", "radd_zero_array", "sub_more_missed"])
     with shared.rec_lock:
         rec.mon("C19.probe")
     conflict = shared.conflicting(cid, expected)
@@ -140,6 +140,23 @@ def probe(rec: core.Recorder, shared: Shared, cid, expected: bool, rng: random.R
                     elif kind == "radd_zero_array":
                         # an array on the left of + is an array-like operand too, whatever its values (zeros look like sum()'s start value)
                         rng.choice([np.zeros(1), np.array([0]), np.array(0), np.zeros(3)]) + h
+                    elif kind == "negative_missed":
+                        # weight recorded outside the bins is content too: a negative one is handed over (not produced by an operator)
+                        from physt.histogram1d import Histogram1D
+                        from physt.histogram_nd import Histogram2D
+
+                        how = rng.randrange(5)
+                        ed_ = np.array([0.0, 1.0, 2.0, 3.0])
+                        if how == 0:
+                            h.overflow = -4
+                        elif how == 1:
+                            h.underflow = -0.5
+                        elif how == 2:
+                            Histogram1D(ed_, np.array([1, 2, 3]), overflow=-1)
+                        elif how == 3:
+                            Histogram2D([ed_, np.array([0.0, 1.0])], np.array([[1], [2], [3]]), missed=-3)
+                        else:
+                            Histogram1D.from_dict({**h.to_dict(), "missed": [0, -2, 0]})
                     elif kind == "scale_negative_operand":
                         # a positive factor on contents that are negative already: the result holds negative contents all the same, so it
                         # exists only where free arithmetics is enabled (refused before anything is touched otherwise)
